@@ -570,35 +570,12 @@ section DiffTie
 
 theorem ofLPeer_str (p : LPeer) : (PeerInfo.ofLPeer p).str = p.str := by cases p <;> rfl
 
-/-- the peer is the pseudo ingress-controller peer exactly when its `Name()` is `ingress-controller`: no real workload
-carries that name -/
-def ICOnlyFake : LPeer → Prop
-  | .ip _ => True
-  | .wl _ pod => (podPeerName pod == ingressPodName) = (pod.fake && pod.name == "ingress-controller")
-
-theorem isNewOrLost_eq {p : LPeer} (h : ICOnlyFake p) (names : List String) :
-    isNewOrLost p names = Diff.isWorkloadAbsent p names := by
-  cases p with
-  | ip r => rfl
-  | wl n pod =>
-    simp only [ICOnlyFake] at h
-    simp only [isNewOrLost, Diff.isWorkloadAbsent, h]
-
-/-- the classification step agrees with that of `Diff.diffLists` on pairs without a real workload named
-`ingress-controller` -/
-theorem classify_toDEntry (p1 p2 : List String) (kp : String × Diff.Pair)
-    (h : ∀ x, (kp.2.first = some x ∨ kp.2.second = some x) → ICOnlyFake x.src ∧ ICOnlyFake x.dst) :
+/-- the classification step is that of `Diff.diffLists` with the peers kept -/
+theorem classify_toDEntry (p1 p2 : List String) (kp : String × Diff.Pair) :
     (classify p1 p2 kp).map DConn.toDEntry = DiffLayer.classify p1 p2 kp := by
   obtain ⟨k, pr⟩ := kp
-  cases hf : pr.first <;> cases hs : pr.second
-  · simp [classify, DiffLayer.classify, hf, hs]
-  · rename_i b
-    have hb := h b (Or.inr hs)
-    simp [classify, DiffLayer.classify, hf, hs, DConn.toDEntry, ofLPeer_str, isNewOrLost_eq hb.1, isNewOrLost_eq hb.2]
-  · rename_i a
-    have ha := h a (Or.inl hf)
-    simp [classify, DiffLayer.classify, hf, hs, DConn.toDEntry, ofLPeer_str, isNewOrLost_eq ha.1, isNewOrLost_eq ha.2]
-  · simp [classify, DiffLayer.classify, hf, hs, DConn.toDEntry, ofLPeer_str]
+  cases hf : pr.first <;> cases hs : pr.second <;>
+    simp [classify, DiffLayer.classify, hf, hs, DConn.toDEntry, ofLPeer_str]
 
 theorem filterMap_congr_mem {α β : Type} {f g : α → Option β} {l : List α} (h : ∀ a ∈ l, f a = g a) :
     l.filterMap f = l.filterMap g := by
@@ -607,18 +584,15 @@ theorem filterMap_congr_mem {α β : Type} {f g : α → Option β} {l : List α
   | cons x xs ih =>
     simp only [filterMap_cons, h x mem_cons_self, ih (fun a ha => h a (mem_cons_of_mem _ ha))]
 
-/-- forgetting the peers, `diffConnsLists` is `Diff.diffLists` (unless a real workload is named `ingress-controller`:
-the Go code then treats it like the pseudo peer, see `isNewOrLost`) -/
-theorem diffConnsLists_toDEntry (c1 c2 : List Diff.P2P) (p1 p2 : List String)
-    (h : ∀ kp ∈ Diff.mergeIPblocks (DiffLayer.diffMap c1 c2), ∀ x, (kp.2.first = some x ∨ kp.2.second = some x) →
-      ICOnlyFake x.src ∧ ICOnlyFake x.dst) :
+/-- forgetting the peers, `diffConnsLists` is `Diff.diffLists` -/
+theorem diffConnsLists_toDEntry (c1 c2 : List Diff.P2P) (p1 p2 : List String) :
     (diffConnsLists c1 c2 p1 p2).map DConn.toDEntry = Diff.diffLists c1 c2 p1 p2 := by
   rw [DiffLayer.diffLists_eq]
   show ((Diff.mergeIPblocks (DiffLayer.diffMap c1 c2)).filterMap (classify p1 p2)).map DConn.toDEntry = _
   rw [map_filterMap]
   apply filterMap_congr_mem
-  intro kp hkp
-  exact classify_toDEntry p1 p2 kp (h kp hkp)
+  intro kp _
+  exact classify_toDEntry p1 p2 kp
 
 end DiffTie
 
